@@ -76,7 +76,7 @@ def run_unit(pid, unit, tier, seed):
            "trusted": [], "clauses": {}, "cmd": "", "wall_s": 0.0, "smt_ms": 0, "verified": 0}
     try:
         text, info = asm.assemble(upath, canary=False, repo=REPO)
-        ctext, cinfo = asm.assemble(upath, canary=True, repo=REPO)
+        ctext, cinfo = asm.assemble(upath, canary="top", repo=REPO)
     except asm.AssembleError as e:
         res["undecided"].append("extraction: %s" % e)
         return res
@@ -93,12 +93,26 @@ def run_unit(pid, unit, tier, seed):
     for it in info["items"]:
         for rw in it["rewrites"]:
             res["rewrites"].append(rw)
-    rl = 20 if tier == "thorough" else None
-    with cf.ThreadPoolExecutor(max_workers=2) as ex:
+    rl = 30 if tier == "thorough" else None
+    ens_jobs = []
+    with cf.ThreadPoolExecutor(max_workers=8) as ex:
         f_main = ex.submit(run_verus.run, main_path, rl, seed)
         f_can = ex.submit(run_verus.run, can_path, rl, seed)
+        if tier == "thorough":
+            # per-function `ensures false` canaries: also catches contradictory ASSUMED specs of callees
+            for it in info["items"]:
+                if it["kind"] == "fn" and it["canary"] and it["has_body"] and not it["assumed"]:
+                    try:
+                        etext, einfo = asm.assemble(upath, canary="ensures:%d" % it["ord"], repo=REPO)
+                    except Exception:
+                        continue
+                    ep = os.path.join(out_dir, "%s_canary_e%d.rs" % (unit, it["ord"]))
+                    open(ep, "w").write(etext)
+                    tgt = [x for x in einfo["items"] if x.get("canary_target")]
+                    ens_jobs.append((it, tgt[0] if tgt else None, ex.submit(run_verus.run, ep, rl, seed)))
         r = f_main.result()
         rc = f_can.result()
+        ens_res = [(it, tgt, f.result()) for it, tgt, f in ens_jobs]
     res["cmd"] = "cd %s && %s" % (out_dir, r["cmd"])
     res["wall_s"] = r["wall_s"] + rc["wall_s"]
     res["smt_ms"] = r.get("smt_ms", 0)
@@ -109,6 +123,16 @@ def run_unit(pid, unit, tier, seed):
         msg = "; ".join(d["message"] for d in r["diags"][:3]) or r.get("raw_err", "")[-400:]
         res["undecided"].append("verus %s on unit %s: %s" % (r["status"], unit, msg))
         return res
+    if r["status"] == "failed":
+        # a failure must persist under another seed and a larger resource limit, otherwise it is an unstable query
+        r2 = run_verus.run(main_path, 40, seed + 104729)
+        k1 = sorted(set((d["line"], d["kind"]) for d in r["diags"] if d["kind"] and d["kind"] != "rlimit"))
+        k2 = sorted(set((d["line"], d["kind"]) for d in r2["diags"] if d["kind"] and d["kind"] != "rlimit"))
+        if r2["status"] == "verified" or k1 != k2:
+            res["undecided"].append("unstable query in unit %s: verdict differs between seeds/rlimits (%s vs %s)" % (unit, k1, k2))
+            if r2["status"] == "verified":
+                return res
+            r = r2
     # failures of the main run
     for d in r["diags"]:
         if d["kind"] is None:
@@ -119,7 +143,10 @@ def run_unit(pid, unit, tier, seed):
         it = run_verus.locate(info["items"], d["line"]) if d["line"] else None
         fn = it["name"] if it else run_verus.enclosing_fn_name(lines, d["line"] or 1)
         extracted = it is not None
-        prop = d["property_derived"] and ((extracted and it.get("class", "prop") == "prop") or fn.startswith("prop_"))
+        # policy: an obligation generated from real code that discharged on the pinned tree and now fails with a
+        # semantic verdict is a violation of that function's contract; failures of hand-written lemmas are
+        # auxiliary unless the lemma is named prop_*
+        prop = (extracted and it.get("class", "prop") == "prop") or fn.startswith("prop_")
         res["failures"].append({"unit": unit, "function": fn, "extracted": extracted, "kind": d["kind"],
                                 "property_derived": bool(prop), "message": d["message"], "at": d["text"],
                                 "secondary": d["secondary"], "rendered": d["rendered"],
@@ -136,19 +163,26 @@ def run_unit(pid, unit, tier, seed):
                 res["undecided"].append("baseline obligation failed without a diagnostic: %s" % fn)
     else:
         res["undecided"].append("no baseline for unit %s" % unit)
-    # canary
+    # canaries
     if rc["status"] in ("compile-error", "crash", "timeout"):
         res["undecided"].append("canary run %s on unit %s" % (rc["status"], unit))
     else:
         for it in cinfo["items"]:
-            if it["kind"] != "fn" or not it["canary"] or it["assumed"]:
+            if it["kind"] != "fn" or not it["canary"] or it["assumed"] or not it["has_body"]:
                 continue
-            hit = any(d["line"] and it["line_start"] <= d["line"] <= it["line_end"] and d["kind"] for d in rc["diags"])
+            hit = any(d["line"] and it["line_start"] <= d["line"] <= it["line_end"] and d["kind"] == "assert" for d in rc["diags"])
+            res["canary"]["%s@%d:requires-satisfiable" % (it["name"], it["line_start"])] = bool(hit)
             if not hit:
-                hit = any(any(it["line_start"] <= s["line"] <= it["line_end"] for s in d["secondary"]) for d in rc["diags"])
-            res["canary"][it["name"] + "@%d" % it["line_start"]] = bool(hit)
-            if not hit:
-                res["undecided"].append("vacuity: `ensures false` is provable for %s in unit %s (contradictory requires or assumed spec)" % (it["name"], unit))
+                res["undecided"].append("vacuity: `assert(false)` at the top of %s is provable in unit %s (contradictory requires)" % (it["name"], unit))
+    for it, tgt, re_ in ens_res:
+        if re_["status"] in ("compile-error", "crash", "timeout") or tgt is None:
+            res["undecided"].append("ensures-false canary run %s for %s" % (re_["status"], it["name"]))
+            continue
+        hit = any(d["kind"] and ((d["line"] and tgt["line_start"] <= d["line"] <= tgt["line_end"]) or
+                                 any(tgt["line_start"] <= s_["line"] <= tgt["line_end"] for s_ in d["secondary"])) for d in re_["diags"])
+        res["canary"]["%s@%d:ensures-false-fails" % (it["name"], it["line_start"])] = bool(hit)
+        if not hit:
+            res["undecided"].append("vacuity: `ensures false` is provable for %s in unit %s (contradictory requires or assumed spec)" % (it["name"], unit))
     return res
 
 
